@@ -318,8 +318,85 @@ fn header_ops(a: &[&str]) -> String {
     }
 }
 
+/// limits_io <max_heap> <max_track> <H0> <T0> <kind 0 read|1 notfound|2 track|3 heap> <keylen> <oldk> <old> <newk> <new>
+/// limits_key <max_key> <kind 0 field|1 map|2 sorted> <len>
+fn limits_ops(a: &[&str]) -> String {
+    use radix_engine::system::system_modules::limits::*;
+    use radix_engine::track::interface::{CanonicalSubstateKey, IOAccess};
+    use radix_engine::errors::{RuntimeError, SystemModuleError};
+    let cfg = |heap: usize, track: usize, key: usize| TransactionLimitsConfig {
+        max_call_depth: 8,
+        max_heap_substate_total_bytes: heap,
+        max_track_substate_total_bytes: track,
+        max_substate_key_size: key,
+        max_substate_value_size: 100,
+        max_invoke_payload_size: 100,
+        max_event_size: 100,
+        max_log_size: 100,
+        max_panic_message_size: 100,
+        max_number_of_logs: 10,
+        max_number_of_events: 10,
+    };
+    let ckey = |len: usize| CanonicalSubstateKey {
+        node_id: node("1"),
+        partition_number: PartitionNumber(0),
+        substate_key: SubstateKey::Map(vec![0u8; len - 31]),
+    };
+    let opt = |k: &str, v: &str| if k == "1" { Some(v.parse::<usize>().unwrap()) } else { None };
+    if a[0] == "limits_key" {
+        let m = LimitsModule::new(cfg(0, 0, a[1].parse().unwrap()));
+        let n: usize = a[3].parse().unwrap();
+        let k = match a[2] {
+            "0" => SubstateKey::Field(7),
+            "1" => SubstateKey::Map(vec![0u8; n]),
+            _ => SubstateKey::Sorted(([0u8; 2], vec![0u8; n])),
+        };
+        return match m.process_substate_key(&k) {
+            Ok(()) => "ok 0".into(),
+            Err(_) => "err".into(),
+        };
+    }
+    let mut m = LimitsModule::new(cfg(a[1].parse().unwrap(), a[2].parse().unwrap(), 1000));
+    let h0: usize = a[3].parse().unwrap();
+    let t0: usize = a[4].parse().unwrap();
+    // reach the totals with one new entry each (key of 32 bytes): totals below 32 other than 0 are not reachable
+    if h0 > 0 {
+        let _ = m.process_io_access(&IOAccess::HeapSubstateUpdated {
+            canonical_substate_key: ckey(32),
+            old_size: None,
+            new_size: Some(h0 - 32),
+        });
+    }
+    if t0 > 0 {
+        let _ = m.process_io_access(&IOAccess::TrackSubstateUpdated {
+            canonical_substate_key: ckey(32),
+            old_size: None,
+            new_size: Some(t0 - 32),
+        });
+    }
+    let key = ckey(a[6].parse().unwrap());
+    let (old, new) = (opt(a[7], a[8]), opt(a[9], a[10]));
+    let io = match a[5] {
+        "0" => IOAccess::ReadFromDb(key, 5),
+        "1" => IOAccess::ReadFromDbNotFound(key),
+        "2" => IOAccess::TrackSubstateUpdated { canonical_substate_key: key, old_size: old, new_size: new },
+        _ => IOAccess::HeapSubstateUpdated { canonical_substate_key: key, old_size: old, new_size: new },
+    };
+    match m.process_io_access(&io) {
+        Ok(()) => "ok 0".into(),
+        Err(RuntimeError::SystemModuleError(SystemModuleError::TransactionLimitsError(
+            TransactionLimitsError::HeapSubstateSizeExceeded { actual, .. },
+        ))) => format!("err heap {}", actual),
+        Err(RuntimeError::SystemModuleError(SystemModuleError::TransactionLimitsError(
+            TransactionLimitsError::TrackSubstateSizeExceeded { actual, .. },
+        ))) => format!("err track {}", actual),
+        Err(_) => "err other 0".into(),
+    }
+}
+
 fn run(a: &[&str]) -> String {
     match a[0] {
+        "limits_io" | "limits_key" => limits_ops(a),
         "header_v1" | "header_v2_tx" | "header_v2_intent" => header_ops(a),
         "nf_run" => nf_run(&a[1..]),
         "read_memory" => match radix_engine::vm::wasm::verif_read_memory(
